@@ -6,6 +6,8 @@ pub use sylvia::cw_std::{
     from_json, to_json_binary, to_json_string, Addr, Attribute, Binary, Coin, CosmosMsg, Deps, DepsMut, Empty, Env, Event, MessageInfo,
     OwnedDeps, Reply, Response, StdError, StdResult, Storage, SubMsg, SubMsgResponse, SubMsgResult, Uint128, WasmMsg,
 };
+pub use sylvia::cw_std::BankMsg;
+pub use sylvia::cw_utils::MsgInstantiateContractResponse;
 pub use sylvia::{contract, entry_points, interface};
 use std::fmt::Write as _;
 
@@ -86,6 +88,116 @@ pub fn echo<E: FromFail>(
     out.push(("addr".into(), env.contract.address.to_string()));
     out.push(("seed".into(), String::from_utf8_lossy(&storage.get(b"seed").unwrap_or_default()).to_string()));
     Ok(out)
+}
+
+pub fn hex(b: &[u8]) -> String {
+    b.iter().map(|x| format!("{:02x}", x)).collect()
+}
+
+pub fn unhex(s: &str) -> Vec<u8> {
+    let s = s.strip_prefix('x').unwrap_or(s);
+    (0..s.len() / 2).map(|i| u8::from_str_radix(&s[2 * i..2 * i + 2], 16).unwrap_or(0)).collect()
+}
+
+pub fn show_result(r: &SubMsgResult) -> String {
+    #[allow(deprecated)]
+    match r {
+        SubMsgResult::Ok(x) => format!("result:ok:{}:{}:{}", x.events.len(), x.data.as_ref().map(|d| hex(d.as_slice())).unwrap_or_else(|| "none".into()), x.msg_responses.len()),
+        SubMsgResult::Err(e) => format!("result:err:{}", e),
+    }
+}
+
+pub fn show_inst(r: &sylvia::cw_utils::MsgInstantiateContractResponse) -> String {
+    format!("{}:{}", r.contract_address, r.data.as_ref().map(|d| hex(d.as_slice())).unwrap_or_else(|| "none".into()))
+}
+
+/// echo of a reply handler: who ran, the first (data / error / result) argument, the payload arguments, the reply context
+pub fn echo_reply<E: FromFail, Q: sylvia::cw_std::CustomQuery>(
+    name: &str,
+    ctx: &ReplyCtx<Q>,
+    first: String,
+    args: &[(&str, String)],
+) -> Result<Vec<(String, String)>, E> {
+    let mut out = echo::<E>(name, ctx.deps.storage, &ctx.env, None, args)?;
+    out.insert(1, ("first".to_string(), first));
+    out.push(("gas".into(), ctx.gas_used.to_string()));
+    out.push(("events".into(), ctx.events.len().to_string()));
+    out.push(("msgr".into(), ctx.msg_responses.len().to_string()));
+    Ok(out)
+}
+
+/// canonical class of an error coming out of dispatch_reply
+pub fn reply_err_class(s: &str) -> String {
+    if s.contains("Failed deserializing protobuf data") {
+        "err envelope".into()
+    } else if s.contains("Invalid reply data at block height") {
+        "err json".into()
+    } else if s.contains("Missing reply data field.") {
+        "err missing".into()
+    } else if let Some(i) = s.find("Unknown reply id: ") {
+        format!("err unknown-id {}", s[i + 18..].trim_end_matches(|c| c == '.' || c == ')'))
+    } else if s.contains("fail:") {
+        format!("err {}", s)
+    } else if s.contains("Error parsing into type") {
+        "err payload".into()
+    } else if let Some(i) = s.find("Generic error: ") {
+        format!("err pass:{}", s[i + 15..].trim_end_matches(')'))
+    } else {
+        format!("err other:{}", s)
+    }
+}
+
+pub fn show_reply_resp<C: std::fmt::Debug, E: std::fmt::Display>(r: Result<Response<C>, E>, storage: &dyn Storage) -> String {
+    match r {
+        Ok(resp) => format!(
+            "ok {} events={} data={} stored={}",
+            show_attrs(&resp.attributes),
+            resp.events.len(),
+            resp.data.as_ref().map(|d| hex(d.as_slice())).unwrap_or_else(|| "-".into()),
+            String::from_utf8_lossy(&storage.get(b"ran").unwrap_or_default())
+        ),
+        Err(e) => reply_err_class(&e.to_string()),
+    }
+}
+
+pub fn mk_reply(id: u64, gas: u64, ok: bool, nevents: usize, data: Option<Vec<u8>>, nmsgr: usize, err: &str, payload: Vec<u8>) -> Reply {
+    #[allow(deprecated)]
+    let result = if ok {
+        SubMsgResult::Ok(SubMsgResponse {
+            events: (0..nevents).map(|i| Event::new(format!("ev{}", i)).add_attribute("k", "v")).collect(),
+            data: data.map(Binary::from),
+            msg_responses: (0..nmsgr).map(|i| sylvia::cw_std::MsgResponse { type_url: format!("/t{}", i), value: Binary::from(vec![i as u8]) }).collect(),
+        })
+    } else {
+        SubMsgResult::Err(err.to_string())
+    };
+    Reply { id, payload: Binary::from(payload), gas_used: gas, result }
+}
+
+pub fn show_submsg<C: std::fmt::Debug + PartialEq>(r: StdResult<SubMsg<C>>, base: &CosmosMsg<C>) -> String {
+    match r {
+        Ok(m) => format!(
+            "id={} reply_on={:?} gas={} payload={} msg_same={}",
+            m.id,
+            m.reply_on,
+            m.gas_limit.map(|g| g.to_string()).unwrap_or_else(|| "none".into()),
+            hex(m.payload.as_slice()),
+            &m.msg == base
+        ),
+        Err(e) => format!("err {}", e),
+    }
+}
+
+pub fn base_cosmos() -> CosmosMsg<Empty> {
+    CosmosMsg::Bank(BankMsg::Burn { amount: vec![Coin::new(5u128, "utok")] })
+}
+
+pub fn base_wasm() -> WasmMsg {
+    WasmMsg::Execute { contract_addr: "target".into(), msg: Binary::from(vec![1, 2, 3]), funds: vec![] }
+}
+
+pub fn base_sub() -> SubMsg<Empty> {
+    SubMsg { id: 999, payload: Binary::from(vec![1, 2]), msg: base_cosmos(), gas_limit: Some(77), reply_on: sylvia::cw_std::ReplyOn::Never }
 }
 
 pub fn resp_of<C>(attrs: Vec<(String, String)>) -> Response<C> {
